@@ -13,9 +13,16 @@ Relations and what is generated:
                              destination before it copies, so the copy of the destination inside the
                              source is already empty)
   move `m`                   every pair except src a proper ancestor of dst (would build a cycle)
-  merges `p`, `q`            unrelated pairs and self; a merge between a node and its own ancestor /
-                             descendant modifies the destination while iterating over a source that
-                             lives inside it (notes/finding-hashtree-related-merge.txt)
+  merges `p`, `q`            unrelated pairs and self; the copying merge `p` of a DESCENDANT's table into
+                             its ancestor when no source key is present in the destination yet, with and
+                             without growth of the destination (works on the unchanged code: the item
+                             pointers are taken before resize() and the source's item block survives the
+                             move of its owner).  Not generated (recorded finding `related-merge`,
+                             notes/finding-hashtree-related-merge.txt): a source key already present in
+                             the ancestor destination, the moving variant, ancestor into descendant.
+  insert `i`                 `node(dst).kids.Insert(key, node(src))` (const-value overloads) for every pair
+                             of paths: in particular node(src) an element of the table it is inserted
+                             into, at every fill level (exactly full: the call grows the table first)
 """
 import copy
 import os
@@ -137,19 +144,37 @@ def gen_program(rng, nops):
                 node_at(root, s)["kids"] = []
                 node_at(root, d)["kids"] = taken
             ops.append("m/%s/%s" % (pstr(d), pstr(s)))
-        else:
+        elif r < 0.92:
             d, s = rng.choice(paths), rng.choice(paths)
-            if s != d and (is_prefix(s, d) or is_prefix(d, s)):
-                continue   # related merge: see the module docstring
             mv = rng.random() < 0.5
+            if s != d and is_prefix(s, d):
+                continue   # ancestor into descendant: recorded finding related-merge
+            if s != d and is_prefix(d, s):
+                # descendant into ancestor: the copying merge with disjoint keys works on the unchanged code
+                dk = set(e[0] for e in node_at(root, d)["kids"])
+                if mv or any(e[0] in dk for e in node_at(root, s)["kids"]):
+                    continue
             if s != d:
                 src = node_at(root, s)
                 dn = node_at(root, d)
-                for k, c in src["kids"]:
-                    put(dn["kids"], k, c if mv else copy.deepcopy(c))
+                snap = copy.deepcopy(src["kids"])
                 if mv:
                     src["kids"] = []
+                for k, c in snap:
+                    put(dn["kids"], k, c)
             ops.append("%s/%s/%s" % ("q" if mv else "p", pstr(d), pstr(s)))
+        else:
+            # const-value Insert with the argument anywhere in the tree, often a sibling in the same table
+            d = rng.choice(paths)
+            dn = node_at(root, d)
+            if dn["kids"] and rng.random() < 0.7:
+                s = d + (rng.choice(dn["kids"])[0],)
+            else:
+                s = rng.choice(paths)
+            k = rng.choice(KEYS) if (rng.random() < 0.6 or not dn["kids"]) else rng.choice(dn["kids"])[0]
+            snap = copy.deepcopy(node_at(root, s))
+            put(node_at(root, d)["kids"], k, snap)
+            ops.append("i/%s/%s/%s" % (pstr(d), kstr(k), pstr(s)))
         outs.append(dump(root))
     return "httree " + ";".join(ops), "|".join(outs) if outs else "-"
 
@@ -181,6 +206,10 @@ def interp(line):
             node_at(root, parse_path(f[1]))["kids"] = []
         elif c in "zyY":
             pass
+        elif c == "i":
+            d, k, sp = parse_path(f[1]), parse_key(f[2]), parse_path(f[3])
+            snap = copy.deepcopy(node_at(root, sp))
+            put(node_at(root, d)["kids"], k, snap)
         else:
             d, s = parse_path(f[1]), parse_path(f[2])
             snap = copy.deepcopy(node_at(root, s))
@@ -216,6 +245,22 @@ WITNESSES = [
     "httree g/~/97;g/~/98;g/97/99;t/97.99/2;a/97.99/~;c/98/~",
 ]
 
+def fill_programs():
+    """Every fill level 1..9 of one table (capacities 2, 4, 8, 16: exactly full at 2, 4, 8), then a call whose
+    argument is an element of that table: const-value Insert of a sibling under a new and under an existing
+    key, and the copying merge of a child's table (disjoint keys) into its parent."""
+    out = []
+    allk = [97, 98, 99, 100, 101, 102, 103, 104, 105]
+    for n in range(1, 10):
+        fill = ";".join("g/~/%d" % k for k in allk[:n])
+        base = "%s;t/%d/7;g/%d/120;g/%d/121;g/%d/122" % (fill, allk[0], allk[0], allk[0], allk[0])
+        out.append("httree %s;i/~/110/%d;i/~/%d/%d" % (base, allk[0], allk[n - 1], allk[0]))
+        out.append("httree %s;i/~/%d/%d" % (base, allk[n - 1], allk[0]))
+        out.append("httree %s;p/~/%d" % (base, allk[0]))
+        out.append("httree %s;g/%d.120/130;g/%d.120/131;p/%d/%d.120;p/~/%d.120" % (base, allk[0], allk[0], allk[0], allk[0], allk[0]))
+    return out
+
+
 # recorded finding (known-findings.txt, key related-merge): operator+= between a table and a table stored
 # inside its own values (or around it) changes the destination while it iterates over the source
 RELATED_MERGE_PROBES = [
@@ -227,7 +272,7 @@ RELATED_MERGE_PROBES = [
 
 def cases(ctx):
     rng = ctx.rng
-    lines = list(WITNESSES)
+    lines = list(WITNESSES) + fill_programs()
     for _ in range(2500 if not ctx.thorough else 50000):
         l, e = gen_program(rng, rng.randrange(2, 18))
         assert interp(l) == e, l
@@ -248,7 +293,7 @@ def run(ctx, drv=None):
     model, _ = core.run_lines_parallel(drv, lines, jobs=12, env=None)
     keep = [i for i in range(len(lines)) if not impl[i].startswith("FAULT")]
     ctx.correspond("hash-tree(lean-model)", [lines[i] for i in keep], [impl[i] for i in keep], [model[i] for i in keep],
-                   nontrivial=lambda l: any(op[:2] in ("c/", "m/", "a/", "p/", "q/") for op in l.split(" ")[1].split(";")))
+                   nontrivial=lambda l: any(op[:2] in ("c/", "m/", "a/", "p/", "q/", "i/") for op in l.split(" ")[1].split(";")))
     for l, m, e in zip(lines, model, exp):
         if m != e:
             ctx.infra_errors.append("Lean tree model and the Python reference disagree on %s: %s vs %s" % (l, m[-200:], e[-200:]))
@@ -258,7 +303,7 @@ def run(ctx, drv=None):
         if a.startswith("FAULT"):
             continue
         prog = l.split(" ")[1]
-        if any(op[:2] in ("c/", "m/", "a/", "p/", "q/") for op in prog.split(";")):
+        if any(op[:2] in ("c/", "m/", "a/", "p/", "q/", "i/") for op in prog.split(";")):
             n_alias += 1
         if a != e:
             what = "lookup by key and iteration by index disagree" if "LOOKUP-MISMATCH" in a else "nested HArray differs from the insertion-ordered-map value semantics"
